@@ -5,7 +5,8 @@ OPS = [
     {'op': 'prelude', 'text': '#[allow(unused_imports)] use vstd::prelude::*;\n'
                               '#[allow(unused_imports)] use crate::verif_ext::*;\n'
                               '#[allow(unused_imports)] use crate::verif_spec::*;\n'
-                              '#[allow(unused_imports)] use crate::verif_tables::*;'},
+                              '#[allow(unused_imports)] use crate::verif_tables::*;\n#[allow(unused_imports)] use vstd::std_specs::iter::IteratorSpec;\n'
+                              'verus! { broadcast use {crate::verif_ext::group_ipp_seq, crate::verif_ext::group_ipp_btree}; }'},
     {'op': 'wrap', 'items': ['fn value_too_short', 'fn get_len_string', 'enum IppValue', 'impl IppValue'],
      'others': 'external_body', 'named': ['to_tag', 'parse', 'to_bytes']},
     {'op': 'item_attr', 'item': 'enum IppValue', 'text': '#[verifier::external_derive]'},
@@ -18,13 +19,44 @@ OPS = [
         }),'''},
     {'op': 'fn', 'path': 'IppValue::to_tag', 'ret': 'r',
      'attrs': ['#[verifier::exec_allows_no_decreases_clause]'],
-     'spec': '    ensures !(*self is Collection) ==> r == spec_tag(aval(*self)),',
+     'spec': '    ensures r == spec_tag(aval(*self)),',
      'closures': {0: {'expect_params': '|v|', 'types': {'v': '&IppValue'}, 'ret': 't: u8',
-                      'spec': '    ensures !(*v is Collection) ==> t == spec_tag(aval(*v))'}}},
+                      'spec': '    ensures t == spec_tag(aval(*v))'}}},
     {'op': 'fn', 'path': 'IppValue::parse', 'ret': 'r',
      'spec': '''    ensures
         r is Ok ==> is_scalar(r->Ok_0) && Some(aval_scalar(r->Ok_0)) == spec_val_dec(value_tag, buf_seq(&data)),
         r is Err ==> spec_val_dec(value_tag, buf_seq(&data)) is None,''',
      'proofs': [{'before': 'let ipp_tag', 'text': 'proof { axiom_value_tag_from(value_tag as int); }'}]},
-    {'op': 'fn', 'path': 'IppValue::to_bytes', 'ret': 'r', 'attrs': ['#[verifier::external_body]']},
+    {'op': 'fn', 'path': 'IppValue::to_bytes', 'ret': 'r',
+     'attrs': ['#[verifier::exec_allows_no_decreases_clause]'],
+     'loops': {1: {'iter_name': 'it', 'spec': '''
+        invariant
+            *self matches IppValue::Collection(m0) && m0@ == list@,
+            size_ok(aval(*self)),
+            bt_iter_facts(list@, it.snapshot@.remaining()),
+            wf16(aval(*self)) ==> buf_seq(&buffer) == enc16(0) + members_enc(aval(*self)->members, it.index@ as nat),
+'''}},
+     'proofs': [{'before': 'for item in list.iter()', 'optional': True,
+                 'text': 'proof { axiom_string_obeys_cmp(); broadcast use vstd::std_specs::btree::group_btree_axioms; }'},
+                {'after': 'let atr_name = IppValue::MemberAttrName(item.0.to_string());', 'optional': True,
+                 'text': 'proof { axiom_to_string_string(item.0, atr_name->MemberAttrName_0); }'},
+                {'before': 'let atr_name', 'optional': True, 'text': '''proof {
+                        let ghost k = bt_order(list@.dom())[it.index@];
+                        assert(*item.0 == k && list@.contains_key(k) && list@[k] == *item.1);
+                        assert((aval(*self)->members)[it.index@] == (k, aval(list@[k])));
+                    }'''}],
+     'spec': '''    requires size_ok(aval(*self)),
+    ensures wf16(aval(*self)) ==> buf_seq(&r) == spec_val_enc(aval(*self)),''',
+     'w8': [{'loop': 0, 'kind': 'enumerate', 'spec': '''
+        invariant
+            0 <= i <= list@.len(),
+            *self matches IppValue::Array(l0) && l0@ == list@,
+            size_ok(aval(*self)),
+            i < list@.len() ==> (aval(*self)->elems)[i as int] == aval(list@[i as int])
+                && size_ok(aval(list@[i as int])) && (wf16(aval(*self)) ==> wf16(aval(list@[i as int]))),
+            i + 1 < list@.len() ==> (aval(*self)->elems)[i + 1] == aval(list@[i + 1]),
+            (aval(*self)->elems).len() == list@.len(),
+            wf16(aval(*self)) ==> buf_seq(&buffer) == set_enc_sep(aval(*self)->elems, i as nat),
+        decreases list@.len() - i,'''}],
+     },
 ]
